@@ -735,6 +735,13 @@ class Engine:
         m = re.match(r"^drop\(.*\) -> \[return: bb(\d+), unwind.*\]$", stmt)
         if m:
             return int(m.group(1))
+        m = re.match(r"^(.+?) = (.+\)) -> (?:bb\d+|unwind .*)$", stmt)
+        if m:
+            # a call that never returns (only an unwind edge): panic!, todo!, unreachable!, expect failures
+            callee = m.group(2).split("(")[0]
+            self.violations.append({"kind": "panic", "message": "diverging call to %s" % callee, "function": fn.name,
+                                    "model": self.model_inputs() if self.check() else None})
+            raise PanicFound("diverging call to %s" % callee, None)
         m = re.match(r"^(.+?) = (.+\)) -> \[return: bb(\d+), unwind.*\]$", stmt)
         if m:
             dst, body, nxt = m.group(1), m.group(2), int(m.group(3))
